@@ -100,7 +100,9 @@ def draw_channel(g, doc):
         cfg["codec"] = g.choice(codecs)
         cfg["newline"] = g.choice(["\n", "\n", "\r\n", "\r"])
         if cfg["codec"] == "utf-8-sig":
-            cfg["explicit"] = g.random() < 0.3       # BOM is detected without encoding=
+            cfg["explicit"] = g.random() < 0.5       # BOM is detected without encoding=
+            if cfg["explicit"] and g.random() < 0.6:
+                cfg["encoding_kw"] = g.choice(["utf-8", "UTF-8", "utf8"])     # BOM file, plain UTF-8 named explicitly
         elif ascii_only and cfg["codec"] == "utf-8" and g.random() < 0.3:
             cfg["explicit"] = False
             cfg["no_chardet"] = True
